@@ -553,8 +553,15 @@ type c02Hist struct {
 	fileGone bool
 }
 
+// file: the file as the chain lists it (the listing, not the keyed lookup: an honest holder reads merkle, owner and
+// start from the list of files and names them in its proof exactly as listed)
 func (hh *c02Hist) file() (storagetypes.UnifiedFile, bool) {
-	return hh.e.App.StorageKeeper.GetFile(hh.e.Ctx, hh.f.root, hh.owner, hh.start)
+	for _, f := range hh.e.App.StorageKeeper.GetAllFileByMerkle(hh.e.Ctx) {
+		if f.Start == hh.start && f.Owner == hh.owner && bytes.Equal(f.Merkle, hh.f.root) {
+			return f, true
+		}
+	}
+	return storagetypes.UnifiedFile{}, false
 }
 
 func (hh *c02Hist) observe(prover string) c02Obs {
@@ -731,8 +738,14 @@ func c02History(r *RunCtx, run int) error {
 	if run%5 == 4 {
 		honestS = strings.ToUpper(honestS)
 	}
-	r.Hist("setup", fmt.Sprintf("proof_type_zero=%v/holder_upper_case=%v", proofType == 0, honestS != honest.String()))
-	if res := e.Run(&storagetypes.MsgPostFile{Creator: owner.String(), Merkle: f.root, FileSize: size, ProofType: proofType, MaxProofs: int64(2 + p.Intn(2)), Note: "{}"}); res.Out != OutOk {
+	// ... and so may the owner (the file is then listed under that spelling and paid for at once: plans are found by
+	// the spelling they were bought under)
+	ownerS, expires := owner.String(), int64(0)
+	if run%7 == 5 {
+		ownerS, expires = strings.ToUpper(ownerS), start+14_400*400
+	}
+	r.Hist("setup", fmt.Sprintf("proof_type_zero=%v/holder_upper_case=%v/owner_upper_case=%v", proofType == 0, honestS != honest.String(), ownerS != owner.String()))
+	if res := e.Run(&storagetypes.MsgPostFile{Creator: ownerS, Merkle: f.root, FileSize: size, ProofType: proofType, MaxProofs: int64(2 + p.Intn(2)), Expires: expires, Note: "{}"}); res.Out != OutOk {
 		return fmt.Errorf("C02: PostFile: %s", res.Err)
 	}
 	// a retry of the post inside its own block, after a holder has already picked the file up: the replacement is a
@@ -740,14 +753,14 @@ func c02History(r *RunCtx, run int) error {
 	// what must not happen is a file that lists a holder the chain holds no record for
 	if run == 3 || p.Chance(1, 4) {
 		if item, payload, err := f.honestProof(0); err == nil {
-			res := e.Run(&storagetypes.MsgPostProof{Creator: honestS, Item: item, HashList: payload, Merkle: f.root, Owner: owner.String(), Start: start, ToProve: 0})
+			res := e.Run(&storagetypes.MsgPostProof{Creator: honestS, Item: item, HashList: payload, Merkle: f.root, Owner: ownerS, Start: start, ToProve: 0})
 			r.Hist("setup", "proof before the retried post: "+res.Out)
-			res = e.Run(&storagetypes.MsgPostFile{Creator: owner.String(), Merkle: f.root, FileSize: size, ProofType: proofType, MaxProofs: 3, Note: "{}"})
+			res = e.Run(&storagetypes.MsgPostFile{Creator: ownerS, Merkle: f.root, FileSize: size, ProofType: proofType, MaxProofs: 3, Expires: expires, Note: "{}"})
 			r.Hist("setup", "retried post in the same block: "+res.Out)
 		}
 	}
-	hh := &c02Hist{r: r, e: e, owner: owner.String(), f: f, start: start}
-	hh.log("PostFile", start, map[string]interface{}{"size": size, "proof_window": pw, "check_window": cw, "chunk_size": chunk})
+	hh := &c02Hist{r: r, e: e, owner: ownerS, f: f, start: start}
+	hh.log("PostFile", start, map[string]interface{}{"owner": ownerS, "expires": expires, "size": size, "proof_window": pw, "check_window": cw, "chunk_size": chunk})
 	r.Hist("params", fmt.Sprintf("pw=%d/cw=%d", pw, cw))
 	r.Hist("file", fmt.Sprintf("chunks=%d/exact=%v", len(f.chunks), size%chunk == 0))
 
